@@ -1097,17 +1097,13 @@ def measure_variant():
         vecsum = type(o).__name__ == 'OperatorVectorSum'
     except TypeError:
         vecsum = False
-    import numpy as np
-    c2 = odl.cn(2)
-    realonly = type(odl.MatrixOperator(np.eye(2, dtype=complex), domain=c2, range=c2) * 1j).__name__ \
-        == 'OperatorRightScalarMult'
-    return frvec, vecsum, realonly
+    return frvec, vecsum
 
 
 def correspondence(rng, tier):
-    frvec, vecsum, realonly = measure_variant()
-    prelude = ('Definition vt_now : variant := {| v_frvec_lin := %s; v_vecsum_field := %s; v_real_shortcut := %s |}.'
-               % (C.b(frvec), C.b(vecsum), C.b(realonly)))
+    frvec, vecsum = measure_variant()
+    prelude = ('Definition vt_now : variant := {| v_frvec_lin := %s; v_vecsum_field := %s |}.'
+               % (C.b(frvec), C.b(vecsum)))
     cs = C.CaseSet('real', ['Base.Vec', 'C04.Model', 'C04.Corr'], 'check_real', 'case Q', prelude=prelude)
     n = 900 if tier == 'quick' else 7500
     maxd = 4 if tier == 'quick' else 7
